@@ -21,6 +21,7 @@ type Result struct {
 	Raw     string
 	Query   string // path of the query file (kept for failures)
 	Detail  string
+	Candidate bool // Model comes from the quantifier-free weakening (candidate only)
 }
 
 type solverSpec struct {
@@ -114,8 +115,8 @@ func solve(workDir string, idx int, fx *FuncCtx, ob *Obligation, probes []string
 	if !stringsTheory {
 		// stage 1: the solver that decides most goals instantly
 		first := timeoutMs
-		if first > 3000 {
-			first = 3000
+		if first > 2000 {
+			first = 2000
 		}
 		st, out, d := runSolver(ctx, solvers[0], file, first)
 		total += d
@@ -123,7 +124,9 @@ func solve(workDir string, idx int, fx *FuncCtx, ob *Obligation, probes []string
 			return finish(st, solvers[0].name, out, total)
 		}
 	}
-	// stage 2: race all solvers
+	// stage 2: race all solvers; in parallel look for a candidate model in the
+	// quantifier-free weakening of the query (refutable quantified goals come
+	// back as timeouts, never as sat).
 	type ans struct {
 		st, out, name string
 		d             time.Duration
@@ -138,6 +141,22 @@ func solve(workDir string, idx int, fx *FuncCtx, ob *Obligation, probes []string
 			ch <- ans{st, out, s.name, d}
 		}()
 	}
+	candCh := make(chan map[string]string, 1)
+	go func() {
+		if ob.Cover {
+			candCh <- nil
+			return
+		}
+		wfile := file + ".weak.smt2"
+		os.WriteFile(wfile, []byte(weaken(q)), 0o644)
+		defer os.Remove(wfile)
+		st, out, _ := runSolver(cctx, solvers[0], wfile, 3000)
+		if st == "sat" {
+			candCh <- parseValues(out)
+			return
+		}
+		candCh <- nil
+	}()
 	var last ans
 	var errs []string
 	for range solvers {
@@ -153,10 +172,30 @@ func solve(workDir string, idx int, fx *FuncCtx, ob *Obligation, probes []string
 		}
 	}
 	r := finish("unknown", "portfolio", last.out, total+last.d)
+	if cand := <-candCh; cand != nil {
+		r.Model = cand
+		r.Candidate = true
+	}
 	if len(errs) > 0 {
 		r.Detail = strings.Join(errs, " | ")
 	}
 	return r
+}
+
+// weaken drops every assertion that contains a quantifier: the result
+// over-approximates the context, so its models are only candidates.
+func weaken(q string) string {
+	var b strings.Builder
+	for _, l := range strings.Split(q, "\n") {
+		if strings.HasPrefix(l, "(assert ") && (strings.Contains(l, "(forall ") || strings.Contains(l, "(exists ")) {
+			if !strings.HasPrefix(l, "(assert (not ") {
+				continue
+			}
+		}
+		b.WriteString(l)
+		b.WriteByte('\n')
+	}
+	return b.String()
 }
 
 func firstLines(s string, n int) string {
